@@ -144,7 +144,9 @@ pub fn run(args: &Args) {
                     else { let st = status; sim.set_handler(Some(Box::new(move |req: &Req, _s: &mut SimState| if req.is_list() { None } else { Some(Resp::xml(st, "<Error><Code>AccessDenied</Code></Error>".into())) }))); }
                     res.case(fnv(format!("{key}{status}{len}").as_bytes()), status == 200);
                     let (out, data_equal, lm_equal, id_equal) = if realtime {
-                        let id = ChunkIdentifier::new(site.to_string(), VolumeIndex::new(vol as usize), name.clone(), None);
+                        // half of the downloads use an identifier that carries a STALE listing time: the result must be stamped with the object's own Last-Modified
+                        let stale = if k % 4 == 0 { Some(t - Duration::days(3)) } else { None };
+                        let id = ChunkIdentifier::new(site.to_string(), VolumeIndex::new(vol as usize), name.clone(), stale);
                         match realtime::download_chunk(site, &id).await {
                             Ok((rid, chunk)) => ("ok", chunk.data() == body.as_slice(), rid.date_time() == Some(t), rid.name() == name && rid.site() == site && rid.volume().as_number() as u64 == vol),
                             Err(e) => (if status == 200 && len < 6 { "ok" } else { classify(&e) }, true, true, true),
